@@ -6,7 +6,10 @@ from ..framework import Report
 from . import c03, c04
 
 PROP = "C07"
-FROM_C04 = ("b-single-append", "b-one-write-call", "b-record-template", "c-bucket-open", "c-bucket-mutation")
+# (a reader racing a writer must never find an index entry whose content is not there yet: content is published before the
+#  index record is appended, and the publication really succeeded — C04 a)
+FROM_C04 = ("b-single-append", "b-one-write-call", "b-record-template", "c-bucket-open", "c-bucket-mutation",
+            "a-publish-before-index", "a/e-failed-publication", "a/d-existing-destination")
 FROM_C03 = ("a-who-writes-content", "b-staged-in-cache-tmp", "b-temp-location")
 ATOMIC = re.compile(r"^std::sync::atomic::(Atomic(Bool|U8|U16|U32|U64|Usize|I8|I16|I32|I64|Isize)|Atomic<(bool|u8|u16|u32|u64|usize|i8|i16|i32|i64|isize)>)$")
 
